@@ -9,6 +9,6 @@ Separate Extraction wire_anchor
   Walk.iter_pages Walk.find_pages Walk.tree_all Walk.outline_items
   XRefCount.read_xref_stream
   ObjStmGet.get_in
-  Nest.read_object
+  Nest.read_indirect
   ObjStmIndex.objstm_find
   DecodePath.decode_in.
